@@ -173,12 +173,18 @@ def mutation_sequences(ctx, n):
         cells = list(itertools.product(range(r), range(c)))
         for rnd in range(3):
             pairs = [(ctx.rng.choice(cells), ctx.rng.choice(cells)) for _ in range(6)]
+            pairs += pairs[:3]          # asked again: the first answer was overwritten by the caller in between (below)
             cur = np.array(m.connection_list, dtype=bool)
             for s, e in pairs:
                 d = bfs(r, c, cur, s)
                 try:
                     p = m.find_shortest_path(s, e); got = len(p) - 1
                     ok_walk = all((abs(a[0] - b[0]) + abs(a[1] - b[1]) == 1) and (cur[0, min(a[0], b[0]), a[1]] if a[1] == b[1] else cur[1, a[0], min(a[1], b[1])]) for a, b in zip(p, p[1:]))
+                    ok_walk = ok_walk and tuple(int(v) for v in p[0]) == tuple(s) and tuple(int(v) for v in p[-1]) == tuple(e)
+                    try:
+                        if isinstance(p, np.ndarray): p[...] = -1       # the path belongs to the caller
+                        elif isinstance(p, list): p.clear()
+                    except Exception: pass
                 except ValueError:
                     got, ok_walk = None, True
                 except Exception as ex:      # any other exception is an answer too (the statement allows a path or ValueError, nothing else)
